@@ -414,6 +414,12 @@ def reg_items(st, s):
         el, _, e = part.rpartition("^")
         if el.startswith("n:"):
             out.append((to_dec_or_frac(parse_rat(el[2:])), int(e)))
+        elif el.startswith("i:"):      # a plain Python int
+            fr = parse_rat(el[2:])
+            assert fr.denominator == 1
+            out.append((int(fr), int(e)))
+        elif el.startswith("f:"):      # a fractions.Fraction, whatever the value
+            out.append((parse_rat(el[2:]), int(e)))
         elif el.startswith("c:"):
             out.append((_cls(st, el[2:]), int(e)))
         elif el.startswith("u:"):
